@@ -127,6 +127,7 @@ def run_harness(run, harness_path, select=None, timeout=60, twin_timeout=30, job
         run.extra["crosshair_s"] = round(run.extra["crosshair_s"] + secs + tsecs, 1)
         verdict, info = classify(out)
         tverdict, tinfo = classify(tout)
+        run.extra.setdefault("condition_seconds", {})[name] = [round(secs, 1), round(tsecs, 1)]
         pre = " ".join(l.strip() for l in doc.splitlines() if l.strip().startswith("pre:"))
         if len(run.samples) < 12:
             run.samples.append({"obligation": key, "bound": pre or "unbounded ints", "verdict": verdict, "seconds": round(secs, 1),
